@@ -27,7 +27,7 @@ notes = open(os.path.join(src, "notes.md")).read() if os.path.exists(os.path.joi
 conf = json.load(open(os.path.join(src, "confirm.json"))) if os.path.exists(os.path.join(src, "confirm.json")) else None
 files = [l[6:].strip() for l in open(os.path.join(src, "patch.diff")) if l.startswith("+++ b/")]
 reports = []
-rep_dir = f"/tmp/seedrep/{batch}-{pid}" if os.path.isdir(f"/tmp/seedrep/{batch}-{pid}") else "/tmp/mutw/replays"
+rep_dir = f"/tmp/seedrep/{batch}-{pid}" if glob.glob(f"/tmp/seedrep/{batch}-{pid}/{pid}-*.json") else "/tmp/mutw/replays"
 for r in sorted(glob.glob(f"{rep_dir}/{pid}-*.json")):
     try:
         j = json.load(open(r))
